@@ -63,7 +63,8 @@ def render(v):
     if c is list or c is tuple:
         return '[' + ','.join(render(x) for x in v) + ']'
     if c is dict:
-        return '{' + ','.join('"' + escape_str(k) + '":' + render(x) for k, x in v.items()) + '}'
+        # the order of the keys is not part of the value (a dict served from the cache file may come back reordered)
+        return '{' + ','.join(sorted('"' + escape_str(k) + '":' + render(x) for k, x in v.items())) + '}'
     raise TypeError('render: %r' % (v,))
 
 
